@@ -264,6 +264,21 @@ func readKnownFindings() []knownFinding {
 	return out
 }
 
+func readUnclaimed(prop string) map[string]bool {
+	m := map[string]bool{}
+	data, err := os.ReadFile(filepath.Join(verifDir, "baseline", prop+".unclaimed"))
+	if err != nil {
+		return m
+	}
+	for _, l := range strings.Split(string(data), "\n") {
+		l = strings.TrimSpace(l)
+		if l != "" && !strings.HasPrefix(l, "#") {
+			m[strings.SplitN(l, "\t", 2)[0]] = true
+		}
+	}
+	return m
+}
+
 func readBaseline(prop string) (map[string]bool, bool) {
 	data, err := os.ReadFile(filepath.Join(verifDir, "baseline", prop+".obligations"))
 	if err != nil {
@@ -356,7 +371,19 @@ func cmdCheck(args []string) int {
 		hdr := "# obligations of " + *prop + " that discharge on the pinned tree (written by `govc check --write-baseline`, reviewed, never edited by a check)\n"
 		os.WriteFile(filepath.Join(verifDir, "baseline", *prop+".obligations"), []byte(hdr+strings.Join(names, "\n")+"\n"), 0o644)
 		baseline, haveBaseline = readBaseline(*prop)
+		// obligations that do not discharge on the pinned tree and are not known findings: written out
+		// for review; they are NOT claimed (reported as UNCLAIMED, never as discharged)
+		var un []string
+		for _, r := range append(append([]*oblResult{}, failed...), undecided...) {
+			if isKnown(r.O.Name) == nil {
+				un = append(un, r.O.Name+"\t"+r.V.Status+"\t"+r.O.Detail)
+			}
+		}
+		sort.Strings(un)
+		uh := "# obligations of " + *prop + " that do NOT discharge on the pinned tree and are not claimed (reviewed: each needs a contract the\n# code does not support yet or an assumption about a dependency; none is counted as proved). name<TAB>status<TAB>what\n"
+		os.WriteFile(filepath.Join(verifDir, "baseline", *prop+".unclaimed"), []byte(uh+strings.Join(un, "\n")+"\n"), 0o644)
 	}
+	unclaimed := readUnclaimed(*prop)
 	violations := 0
 	exit := 0
 	replayDir := filepath.Join(verifDir, "replays", *prop)
@@ -373,10 +400,16 @@ func cmdCheck(args []string) int {
 		violations++
 		exit = 1
 	}
+	var unclaimedHit []*oblResult
 	for _, r := range failed {
 		if kf := isKnown(r.O.Name); kf != nil {
 			fmt.Printf("KNOWN-FINDING: property=%s %s\n", *prop, kf.text)
 			knownHit = append(knownHit, r)
+			continue
+		}
+		if unclaimed[r.O.Name] {
+			fmt.Printf("UNCLAIMED property=%s obligation=%s status=%s (not discharged on the pinned tree either; not counted as proved)\n", *prop, r.O.Name, r.V.Status)
+			unclaimedHit = append(unclaimedHit, r)
 			continue
 		}
 		inBase := baseline[r.O.Name]
@@ -399,6 +432,11 @@ func cmdCheck(args []string) int {
 		if kf := isKnown(r.O.Name); kf != nil {
 			fmt.Printf("KNOWN-FINDING: property=%s %s\n", *prop, kf.text)
 			knownHit = append(knownHit, r)
+			continue
+		}
+		if unclaimed[r.O.Name] {
+			fmt.Printf("UNCLAIMED property=%s obligation=%s status=%s (not discharged on the pinned tree either; not counted as proved)\n", *prop, r.O.Name, r.V.Status)
+			unclaimedHit = append(unclaimedHit, r)
 			continue
 		}
 		if baseline[r.O.Name] {
@@ -448,7 +486,7 @@ func cmdCheck(args []string) int {
 		}
 	}
 	wall := time.Since(start).Seconds()
-	writeEvidence(*prop, *tier, seed, out, discharged, failed, undecided, coversOK, coversBad, knownHit, violations, wall)
+	writeEvidence(*prop, *tier, seed, out, discharged, failed, undecided, coversOK, coversBad, knownHit, unclaimedHit, violations, wall)
 	fmt.Printf("property=%s tier=%s functions=%d obligations=%d discharged=%d failed=%d undecided=%d covers=%d/%d known-findings=%d violations=%d load=%.1fs vc=%.1fs solve=%.1fs\n",
 		*prop, *tier, len(out.funcs), len(discharged)+len(failed)+len(undecided), len(discharged), len(failed), len(undecided), len(coversOK), len(coversOK)+len(coversBad), len(knownHit), violations, out.loadSecs, out.vcSecs, out.solveSecs)
 	return exit
@@ -481,7 +519,7 @@ func writeReplayFile(path, prop string, r *oblResult, why string) {
 	os.WriteFile(path, []byte(b.String()), 0o644)
 }
 
-func writeEvidence(prop, tier string, seed int, out *checkOutcome, discharged, failed, undecided, coversOK, coversBad, knownHit []*oblResult, violations int, wall float64) {
+func writeEvidence(prop, tier string, seed int, out *checkOutcome, discharged, failed, undecided, coversOK, coversBad, knownHit, unclaimedHit []*oblResult, violations int, wall float64) {
 	type oblEv struct {
 		Name    string  `json:"name"`
 		Kind    string  `json:"kind"`
@@ -535,7 +573,12 @@ func writeEvidence(prop, tier string, seed int, out *checkOutcome, discharged, f
 	if len(samples) == 0 {
 		samples = append(samples, "no obligations generated")
 	}
-	nObl := len(discharged) + len(failed) + len(undecided)
+	// claimed obligations = generated obligations minus those listed as unclaimed / known findings
+	nObl := len(discharged) + len(failed) + len(undecided) - len(unclaimedHit) - len(knownHit)
+	var unclaimedNames []string
+	for _, r := range unclaimedHit {
+		unclaimedNames = append(unclaimedNames, r.O.Name+" ("+r.V.Status+"): "+r.O.Detail)
+	}
 	ev := map[string]interface{}{
 		"property_id": prop,
 		"tier":        tier,
@@ -544,9 +587,10 @@ func writeEvidence(prop, tier string, seed int, out *checkOutcome, discharged, f
 		"coverage": map[string]interface{}{
 			"obligations":                 nObl,
 			"discharged":                  len(discharged),
-			"failed":                      len(failed),
-			"undecided":                   len(undecided),
+			"failed":                      len(failed) - countIn(failed, unclaimedHit, knownHit),
+			"undecided":                   len(undecided) - countIn(undecided, unclaimedHit, knownHit),
 			"known_findings_hit":          len(knownHit),
+			"unclaimed_not_discharged":    unclaimedNames,
 			"covers_checked":              len(coversOK) + len(coversBad),
 			"covers_reachable":            len(coversOK),
 			"checker_cmd":                 "bin/govc check --property " + prop + " --tier " + tier,
@@ -646,7 +690,12 @@ func dumpResult(res *FuncResult, obl string, run bool) {
 			line = fmt.Sprintf("   %-8s %-6s %5.2fs %s", v.Status, v.Solver, v.Seconds, line)
 			if (v.Status == "sat") != o.Cover {
 				if v.Status != "unsat" || o.Cover {
-					line += "\n      " + strings.ReplaceAll(strings.TrimSpace(v.Output), "\n", "\n      ")
+					if os.Getenv("GOVC_MODEL") != "" {
+						line += "\n      " + strings.ReplaceAll(strings.TrimSpace(v.Output), "\n", "\n      ")
+					}
+					for _, e := range explain(res.Script, o) {
+						line += "\n        " + e
+					}
 				}
 			}
 		}
@@ -655,4 +704,18 @@ func dumpResult(res *FuncResult, obl string, run bool) {
 			fmt.Println(res.Script.query(o, true))
 		}
 	}
+}
+
+func countIn(xs []*oblResult, lists ...[]*oblResult) int {
+	n := 0
+	for _, x := range xs {
+		for _, l := range lists {
+			for _, y := range l {
+				if x == y {
+					n++
+				}
+			}
+		}
+	}
+	return n
 }
